@@ -80,6 +80,19 @@ Theorem C09_history_dirs_reachable : forall ks ds tr df s r,
   history [] ks = Some (ds, tr, df, s, r) -> Forall reachable ds /\ reachable df.
 Proof. exact (history_dirs_reachable step init save load tsv cf). Qed.
 
+(* from ANY directory in which no checkpoint name is torn (not only reachable ones): the run's
+   file-system steps follow the rename discipline of Common/AtomFS.v (a checkpoint name is
+   never opened for writing, only a closed temporary is renamed onto it), hence by
+   tmp_then_rename_atomic no crash point shows a torn checkpoint *)
+Theorem C09_run_follows_rename_discipline : forall d tr s r, run d = Some (tr, s, r) ->
+  disciplined_run str_eqb (ckpt_path_matches base) d (map (@fs_step B) tr).
+Proof. exact (DR_run step init save load tsv cf). Qed.
+
+Theorem C09_run_never_tears : forall d tr s r k, run d = Some (tr, s, r) ->
+  no_torn_final str_eqb (ckpt_path_matches base) d ->
+  no_torn_final str_eqb (ckpt_path_matches base) (apply_evs d (firstn k tr)).
+Proof. exact (run_never_tears step init save load tsv cf). Qed.
+
 End C09.
 
 (* the state after R uninterrupted rounds is `iter step R init` *)
@@ -108,6 +121,10 @@ Example C09_example :
   end.
 Proof. vm_compute. repeat split; discriminate. Qed.
 
+(* the hypotheses are satisfiable: the harness's toy serialization round-trips *)
+Example C09_hypotheses_satisfiable : (forall s, toy_load (toy_save s) = s) /\ 0 <= 6 < 10 ^ 8.
+Proof. split; [intros [c h]; reflexivity|vm_compute; split; [intro H; discriminate H|reflexivity]]. Qed.
+
 Print Assumptions C09_visible_checkpoint_complete.
 Print Assumptions C09_checkpoint_holds_round_state.
 Print Assumptions C09_newest_wins.
@@ -115,5 +132,7 @@ Print Assumptions C09_retention.
 Print Assumptions C09_resume_equals_uninterrupted.
 Print Assumptions C09_rerun_completes.
 Print Assumptions C09_history_dirs_reachable.
+Print Assumptions C09_run_follows_rename_discipline.
+Print Assumptions C09_run_never_tears.
 Print Assumptions C09_state_at_is_iter.
 Print Assumptions C09_tmp_then_rename_atomic.
